@@ -531,4 +531,379 @@ theorem parseTokens_wellFormed {tokens : List Str} {f : Fields} (h : parseTokens
       · exact Or.inr (hd ha)
       · exact Or.inl rfl
 
+/-! ## characters, `atoi`, decimal rendering -/
+
+theorem char_le_iff (a b : Char) : a ≤ b ↔ a.toNat ≤ b.toNat := by
+  rw [Char.le_def, UInt32.le_iff_toNat_le]; rfl
+
+theorem isDigit_iff (c : Char) : isDigit c = true ↔ 48 ≤ c.toNat ∧ c.toNat ≤ 57 := by
+  simp [isDigit, char_le_iff]
+
+theorem isDigit_eq (c : Char) : isDigit c = c.isDigit := by
+  rw [Bool.eq_iff_iff, isDigit_iff]
+  unfold Char.isDigit
+  simp only [ge_iff_le, Bool.and_eq_true, decide_eq_true_eq, UInt32.le_iff_toNat_le]
+  rfl
+
+theorem digitsVal_eq (l : Str) (acc : Nat) : digitsVal l acc = Nat.ofDigitChars 10 l acc := by
+  induction l generalizing acc with
+  | nil => simp [digitsVal]
+  | cons c cs ih => rw [digitsVal, Nat.ofDigitChars_cons, ih, Nat.mul_comm]
+
+/-- `atoi` on a string that does not start with a sign -/
+theorem atoi_cons_of_not_sign (c : Char) (cs : Str) (h1 : c ≠ '-') (h2 : c ≠ '+') :
+    atoi (c :: cs) =
+      if (c :: cs).all isDigit = true then
+        (if digitsVal (c :: cs) 0 ≤ maxInt64 then some (digitsVal (c :: cs) 0 : Int) else none)
+      else none := by
+  unfold atoi
+  split
+  rename_i neg ds heq
+  split at heq
+  · rename_i heq'; injection heq' with heq' _; exact absurd heq' h1
+  · rename_i heq'; injection heq' with heq' _; exact absurd heq' h2
+  · injection heq with e1 e2; subst e1; subst e2
+    by_cases hall : (c :: cs).all isDigit = true
+    · simp [hall]
+    · simp [hall]
+
+theorem atoi_digits (ds : Str) (hne : ds ≠ []) (hall : ds.all isDigit = true)
+    (hv : digitsVal ds 0 ≤ maxInt64) : atoi ds = some (digitsVal ds 0 : Int) := by
+  cases ds with
+  | nil => exact absurd rfl hne
+  | cons c cs =>
+    have hc : isDigit c = true := by simp at hall; exact hall.1
+    have h1 : c ≠ '-' := by rintro rfl; revert hc; decide
+    have h2 : c ≠ '+' := by rintro rfl; revert hc; decide
+    rw [atoi_cons_of_not_sign c cs h1 h2]
+    simp [hall, hv]
+
+/-- decimal rendering (`strconv.Itoa` on a non-negative number) -/
+def renderNat (n : Nat) : Str := Nat.toDigits 10 n
+
+theorem renderNat_all_digit (n : Nat) : (renderNat n).all isDigit = true := by
+  rw [List.all_eq_true]
+  intro c hc
+  rw [isDigit_eq]
+  exact Nat.isDigit_of_mem_toDigits (by decide) (by decide) hc
+
+theorem digitsVal_renderNat (n : Nat) : digitsVal (renderNat n) 0 = n := by
+  rw [digitsVal_eq]; exact Nat.ofDigitChars_ten_toDigits
+
+theorem atoi_renderNat (n : Nat) (h : n ≤ maxInt64) : atoi (renderNat n) = some (n : Int) := by
+  have := atoi_digits (renderNat n) Nat.toDigits_ne_nil (renderNat_all_digit n)
+    (by rw [digitsVal_renderNat]; exact h)
+  rw [digitsVal_renderNat] at this
+  exact this
+
+theorem normalize_renderNat (names : List Str) (n : Nat) (h : n ≤ maxInt64) :
+    normalize names (renderNat n) = some (n : Int) := by
+  unfold normalize; rw [atoi_renderNat n h]
+
+/-! ## separators -/
+
+/-- no list / step / range separator -/
+def noSep (v : Str) : Bool := !v.contains ',' && !v.contains '/' && !v.contains '-'
+
+theorem noSep_iff (v : Str) : noSep v = true ↔
+    ¬ (v.contains ',' = true) ∧ ¬ (v.contains '/' = true) ∧ ¬ (v.contains '-' = true) := by
+  simp [noSep, and_assoc]
+
+theorem contains_append_sep (a z : Str) (sep c : Char) :
+    (a ++ sep :: z).contains c = true ↔ (a.contains c = true ∨ c = sep ∨ z.contains c = true) := by
+  simp [List.contains_eq_mem, List.mem_append]
+
+theorem not_contains_of_all_digit (v : Str) (h : v.all isDigit = true) (c : Char) (hc : isDigit c = false) :
+    ¬ (v.contains c = true) := by
+  intro hm
+  rw [List.all_eq_true] at h
+  have := h c (by simpa using hm)
+  rw [hc] at this; cases this
+
+theorem noSep_of_all_digit (v : Str) (h : v.all isDigit = true) : noSep v = true :=
+  (noSep_iff v).2 ⟨not_contains_of_all_digit v h _ (by decide), not_contains_of_all_digit v h _ (by decide),
+    not_contains_of_all_digit v h _ (by decide)⟩
+
+theorem noSep_renderNat (n : Nat) : noSep (renderNat n) = true := noSep_of_all_digit _ (renderNat_all_digit n)
+
+theorem not_wild_of_all_digit (v : Str) (h : v.all isDigit = true) : v ≠ ['*'] ∧ v ≠ ['?'] := by
+  constructor
+  · rintro rfl; revert h; decide
+  · rintro rfl; revert h; decide
+
+/-! ## names -/
+
+theorem indexOf?_of_nodup (names : List Str) (i : Nat) (nm : Str) (h : names[i]? = some nm)
+    (hnodup : names.Nodup) : indexOf? names nm = some i := by
+  induction names generalizing i with
+  | nil => simp at h
+  | cons x t ih =>
+    have hn := List.nodup_cons.1 hnodup
+    cases i with
+    | zero =>
+      simp at h; subst h; simp [indexOf?]
+    | succ j =>
+      simp at h
+      have hmem : nm ∈ t := List.mem_of_getElem? h
+      have hx : x ≠ nm := by rintro rfl; exact hn.1 hmem
+      simp [indexOf?, hx, ih j h hn.2]
+
+def isUpperAZ (c : Char) : Bool := 'A' ≤ c && c ≤ 'Z'
+
+theorem isUpperAZ_iff (c : Char) : isUpperAZ c = true ↔ 65 ≤ c.toNat ∧ c.toNat ≤ 90 := by
+  simp [isUpperAZ, char_le_iff]
+
+/-- whatever upper-cases to an ASCII capital is itself a letter(-like) character: code ≥ 65, in
+    particular no digit, sign, separator, wildcard or blank -/
+theorem ge65_of_upperChar (c : Char) (h : isUpperAZ (upperChar c) = true) : 65 ≤ c.toNat := by
+  unfold upperChar at h
+  split at h
+  · rename_i hc
+    simp only [Bool.and_eq_true, decide_eq_true_eq, char_le_iff] at hc
+    have : 'a'.toNat = 97 := rfl
+    omega
+  · split at h
+    · omega
+    · split at h
+      · omega
+      · exact ((isUpperAZ_iff c).1 h).1
+
+/-- every character has code ≥ 65 (letters and beyond) -/
+def Wordy (v : Str) : Prop := ∀ c ∈ v, 65 ≤ c.toNat
+
+theorem wordy_of_map_upper (v nm : Str) (hv : v.map upperChar = nm) (hall : nm.all isUpperAZ = true) :
+    Wordy v := by
+  intro c hc
+  apply ge65_of_upperChar
+  rw [List.all_eq_true] at hall
+  apply hall
+  rw [← hv]
+  exact List.mem_map_of_mem hc
+
+theorem Wordy.not_mem {v : Str} (h : Wordy v) (c : Char) (hc : c.toNat < 65) : ¬ (v.contains c = true) := by
+  intro hm
+  have := h c (by simpa using hm)
+  omega
+
+theorem atoi_wordy (v : Str) (h : Wordy v) : atoi v = none := by
+  cases v with
+  | nil => decide
+  | cons c cs =>
+    have hc : 65 ≤ c.toNat := h c (by simp)
+    have h1 : c ≠ '-' := by rintro rfl; revert hc; decide
+    have h2 : c ≠ '+' := by rintro rfl; revert hc; decide
+    have h3 : isDigit c = false := by
+      rw [Bool.eq_false_iff]; intro hd; have := (isDigit_iff c).1 hd; omega
+    rw [atoi_cons_of_not_sign c cs h1 h2]
+    simp [h3]
+
+theorem Wordy.noSep {v : Str} (h : Wordy v) : noSep v = true :=
+  (noSep_iff v).2 ⟨h.not_mem _ (by decide), h.not_mem _ (by decide), h.not_mem _ (by decide)⟩
+
+theorem Wordy.not_wild {v : Str} (h : Wordy v) : v ≠ ['*'] ∧ v ≠ ['?'] := by
+  constructor
+  · rintro rfl; have := h '*' (by simp); revert this; decide
+  · rintro rfl; have := h '?' (by simp); revert this; decide
+
+/-- the glossary entries from index 1 on are non-empty words of ASCII capitals -/
+def glossaryOK (names : List Str) : Bool :=
+  (names.drop 1).all (fun nm => nm.all isUpperAZ && nm != []) 
+
+theorem glossaryOK_get {names : List Str} (h : glossaryOK names = true) {i : Nat} {nm : Str}
+    (hi : 0 < i) (hnm : names[i]? = some nm) : nm.all isUpperAZ = true ∧ nm ≠ [] := by
+  unfold glossaryOK at h
+  rw [List.all_eq_true] at h
+  have hmem : nm ∈ names.drop 1 := by
+    apply List.mem_of_getElem? (i := i - 1)
+    rw [List.getElem?_drop]
+    have : 1 + (i - 1) = i := by omega
+    rw [this]; exact hnm
+  have := h nm hmem
+  simpa using this
+
+/-! ## meaning equations for the generic field parser -/
+
+/-- meaning of a single-value field -/
+def singleOf (b : Bound) (x : Option Int) : Option Field :=
+  match x with
+  | some v => if inScope v b.lower b.upper then some { values := [v.toNat] } else none
+  | none => none
+
+theorem parseField_single (v : Str) (b : Bound) (names : List Str) (hw : v ≠ ['*'] ∧ v ≠ ['?'])
+    (hs : noSep v = true) : parseField v b names = singleOf b (normalize names v) := by
+  obtain ⟨h1, h2, h3⟩ := (noSep_iff v).1 hs
+  unfold parseField singleOf
+  simp only [hw.1, hw.2, or_self, if_false, h1, h2, h3]
+  rfl
+
+/-- meaning of a range field -/
+def rangeOf (b : Bound) (x y : Option Int) : Option (List Nat) :=
+  match x, y with
+  | some frm, some to =>
+    if inScope frm b.lower b.upper && inScope to b.lower b.upper then fillRange frm.toNat to.toNat else none
+  | _, _ => none
+
+theorem parseRange_eq (a z : Str) (b : Bound) (names : List Str)
+    (ha : ¬ (a.contains '-' = true)) (hz : ¬ (z.contains '-' = true)) :
+    parseRange (a ++ '-' :: z) b names = rangeOf b (normalize names a) (normalize names z) := by
+  unfold parseRange rangeOf
+  rw [splitOn_two '-' a z ha hz]
+  rfl
+
+theorem parseField_range (a z : Str) (b : Bound) (names : List Str)
+    (ha : noSep a = true) (hz : noSep z = true) :
+    parseField (a ++ '-' :: z) b names =
+      (rangeOf b (normalize names a) (normalize names z)).map (fun v => { values := v }) := by
+  obtain ⟨a1, a2, a3⟩ := (noSep_iff a).1 ha
+  obtain ⟨z1, z2, z3⟩ := (noSep_iff z).1 hz
+  have hd : (a ++ '-' :: z).contains '-' = true := by simp
+  have w1 : a ++ '-' :: z ≠ ['*'] := by intro h; rw [h] at hd; revert hd; decide
+  have w2 : a ++ '-' :: z ≠ ['?'] := by intro h; rw [h] at hd; revert hd; decide
+  have c1 : ¬ ((a ++ '-' :: z).contains ',' = true) := by
+    simp only [contains_append_sep, not_or]; exact ⟨a1, by decide, z1⟩
+  have c2 : ¬ ((a ++ '-' :: z).contains '/' = true) := by
+    simp only [contains_append_sep, not_or]; exact ⟨a2, by decide, z2⟩
+  unfold parseField
+  simp only [w1, w2, or_self, if_false, c1, c2, hd, if_true, Bool.false_eq_true,
+    parseRange_eq a z b names a3 z3]
+
+/-- the `from`/`to` pair of a step field, as computed by `parseStepField` from the text before `/` -/
+def stepFromTo (b : Bound) (names : List Str) (t0 : Str) : Option (Int × Int) :=
+  if t0 = ['*'] then some (b.lower, b.upper)
+  else if t0.contains '-' then
+    match splitOn '-' t0 with
+    | [a, z] =>
+      match normalize names a, normalize names z with
+      | some frm, some to => some (frm, to)
+      | _, _ => none
+    | _ => none
+  else (normalize names t0).map (fun frm => (frm, (b.upper : Int)))
+
+/-- meaning of a step field -/
+def stepOf (b : Bound) (fromTo : Option (Int × Int)) (step : Option Int) : Option (List Nat) :=
+  match fromTo, step with
+  | some (frm, to), some step =>
+    if inScope frm b.lower b.upper && inScope step 1 b.upper && inScope to b.lower b.upper
+    then fillStep frm.toNat step.toNat to.toNat else none
+  | _, _ => none
+
+theorem parseStep_eq (t0 t1 : Str) (b : Bound) (names : List Str)
+    (h0 : ¬ (t0.contains '/' = true)) (h1 : ¬ (t1.contains '/' = true)) :
+    parseStep (t0 ++ '/' :: t1) b names = stepOf b (stepFromTo b names t0) (atoi t1) := by
+  unfold parseStep stepOf stepFromTo
+  rw [splitOn_two '/' t0 t1 h0 h1]
+  rfl
+
+theorem stepFromTo_star (b : Bound) (names : List Str) :
+    stepFromTo b names ['*'] = some ((b.lower : Int), (b.upper : Int)) := by
+  simp [stepFromTo]
+
+theorem stepFromTo_from (b : Bound) (names : List Str) (a : Str) (hw : a ≠ ['*'])
+    (ha : ¬ (a.contains '-' = true)) :
+    stepFromTo b names a = (normalize names a).map (fun frm => (frm, (b.upper : Int))) := by
+  unfold stepFromTo
+  simp only [hw, if_false, ha, Bool.false_eq_true]
+
+theorem stepFromTo_range (b : Bound) (names : List Str) (a z : Str)
+    (ha : ¬ (a.contains '-' = true)) (hz : ¬ (z.contains '-' = true)) :
+    stepFromTo b names (a ++ '-' :: z) =
+      (match normalize names a, normalize names z with
+       | some frm, some to => some (frm, to)
+       | _, _ => none) := by
+  have hd : (a ++ '-' :: z).contains '-' = true := by simp
+  have w1 : a ++ '-' :: z ≠ ['*'] := by intro h; rw [h] at hd; revert hd; decide
+  unfold stepFromTo
+  simp only [w1, if_false, hd, if_true, splitOn_two '-' a z ha hz]
+
+theorem parseField_step (t0 t1 : Str) (b : Bound) (names : List Str)
+    (c0 : ¬ (t0.contains ',' = true)) (c1 : ¬ (t1.contains ',' = true))
+    (h0 : ¬ (t0.contains '/' = true)) (h1 : ¬ (t1.contains '/' = true)) :
+    parseField (t0 ++ '/' :: t1) b names =
+      (stepOf b (stepFromTo b names t0) (atoi t1)).map (fun v => { values := v }) := by
+  have hd : (t0 ++ '/' :: t1).contains '/' = true := by simp
+  have w1 : t0 ++ '/' :: t1 ≠ ['*'] := by intro h; rw [h] at hd; revert hd; decide
+  have w2 : t0 ++ '/' :: t1 ≠ ['?'] := by intro h; rw [h] at hd; revert hd; decide
+  have cc : ¬ ((t0 ++ '/' :: t1).contains ',' = true) := by
+    simp only [contains_append_sep, not_or]; exact ⟨c0, by decide, c1⟩
+  unfold parseField
+  simp only [w1, w2, or_self, if_false, cc, hd, if_true, Bool.false_eq_true,
+    parseStep_eq t0 t1 b names h0 h1]
+
+/-! ## list members -/
+
+theorem mapM'_forall {α β} {f : α → Option β} {l : List α} {r : List β} (h : mapM' f l = some r) :
+    ∀ x ∈ l, ∃ y ∈ r, f x = some y := by
+  induction l generalizing r with
+  | nil => simp
+  | cons a t ih =>
+    simp only [mapM'] at h
+    split at h
+    · rename_i b bs hb hbs
+      injection h with h; subst h
+      intro x hx
+      rcases List.mem_cons.1 hx with rfl | hx
+      · exact ⟨b, by simp, hb⟩
+      · obtain ⟨y, hy, hfy⟩ := ih hbs x hx
+        exact ⟨y, by simp [hy], hfy⟩
+    · cases h
+
+/-- what `parseListField` does with one comma-separated member -/
+def parseMember (t : Str) (b : Bound) (names : List Str) : Option (List Nat) :=
+  if t.contains '/' then parseStep t b names
+  else if t.contains '-' then parseRange t b names
+  else match normalize names t with
+    | some v => if inScope v b.lower b.upper then some [v.toNat] else none
+    | none => none
+
+/-- a comma-free, non-wildcard field on its own is parsed exactly like a list member -/
+theorem parseField_eq_member (t : Str) (b : Bound) (names : List Str) (hw : t ≠ ['*'] ∧ t ≠ ['?'])
+    (hc : ¬ (t.contains ',' = true)) :
+    parseField t b names = (parseMember t b names).map (fun v => { values := v }) := by
+  unfold parseField parseMember
+  simp only [hw.1, hw.2, or_self, if_false, hc, Bool.false_eq_true]
+  by_cases h1 : t.contains '/' = true
+  · simp only [h1, if_true]
+  · by_cases h2 : t.contains '-' = true
+    · simp only [h1, h2, if_true, Bool.false_eq_true, if_false]
+    · simp only [h1, h2, Bool.false_eq_true, if_false]
+      cases normalize names t with
+      | none => rfl
+      | some v =>
+        simp only
+        split <;> rfl
+
+/-- a list is accepted only if every member is -/
+theorem parseList_members {fld : Str} {b : Bound} {names : List Str} {l : List Nat}
+    (h : parseList fld b names = some l) :
+    ∀ t ∈ splitOn ',' fld, (parseMember t b names).isSome = true := by
+  unfold parseList at h
+  simp only at h
+  split at h
+  · cases h
+  · rename_i lits hl
+    split at h
+    · cases h
+    · rename_i hall
+      split at h
+      · rename_i sv rv hsv hrv
+        intro t ht
+        unfold parseMember
+        by_cases h1 : '/' ∈ t
+        · have h1c : t.contains '/' = true := by simpa using h1
+          simp only [h1c, if_true]
+          obtain ⟨y, _, hy⟩ := mapM'_forall hsv t (by simp [List.mem_filter, ht, h1])
+          simp [hy]
+        · have h1c : t.contains '/' = false := by simpa using h1
+          by_cases h2 : '-' ∈ t
+          · have h2c : t.contains '-' = true := by simpa using h2
+            simp only [h1c, h2c, if_true, Bool.false_eq_true, if_false]
+            obtain ⟨y, _, hy⟩ := mapM'_forall hrv t (by simp [List.mem_filter, ht, h1, h2])
+            simp [hy]
+          · have h2c : t.contains '-' = false := by simpa using h2
+            simp only [h1c, h2c, Bool.false_eq_true, if_false]
+            obtain ⟨y, hyl, hy⟩ := mapM'_forall hl t (by simp [List.mem_filter, ht, h1, h2])
+            simp only [Bool.not_eq_true, Bool.not_eq_false', List.all_eq_true] at hall
+            simp [hy, hall y hyl]
+      · cases h
+
 end Cron
